@@ -346,6 +346,12 @@ def micro_alphabet():
             ("r", "A:2", "A"), ("d", "A:1")]
 
 
+def gap_alphabet():
+    """a group of three or more same-named (or blank) items that loses a member other than its last one and then
+    grows again: the numbering must be :1..:n once more"""
+    return [("a", "A"), ("a", ""), ("d", "A:2"), ("e", 0), ("e", 1), ("r", "A:1", "B")]
+
+
 INTLIKE_PROBE_KEYS = ["1", "0", "-1", "A", "a", "1:1", "Z", "UNKNOWN"]
 
 
